@@ -331,8 +331,11 @@ func (in *inst) stateStr() string {
 			ls = "1"
 		}
 	}
-	return fmt.Sprintf("reg[%s e=%d] wait=%s un=%d au=%d ne=%d st=%d dn=%s rn=%s fail=%d ln=%s ls=%s", in.infoStr(&info), ep, w,
-		b(s.Unstable), b(s.AutoBalance), s.NodesEpoch, s.StableNodeNum, joinInts(dn), rns, fl, joinInts(ln), ls)
+	in.reg.mu.Lock()
+	rp := in.reg.meta.Replica
+	in.reg.mu.Unlock()
+	return fmt.Sprintf("reg[%s e=%d] wait=%s un=%d au=%d ne=%d st=%d dn=%s rn=%s fail=%d ln=%s ls=%s rp=%d up=%d", in.infoStr(&info), ep, w,
+		b(s.Unstable), b(s.AutoBalance), s.NodesEpoch, s.StableNodeNum, joinInts(dn), rns, fl, joinInts(ln), ls, rp, b(s.Upgrading))
 }
 
 func (in *inst) writesStr() string {
@@ -481,6 +484,22 @@ func (in *inst) exec(e *event) string {
 				close(closed)
 				in.coord.VerifProcessRemovingNodes(closed, st.RemovingNodes)
 			}
+		case "G":
+			// ChangeNamespaceMetaParam(newReplicator)
+			n, _ := strconv.Atoi(e.f[0])
+			err := in.coord.ChangeNamespaceMetaParam(nsName, n, "", 0)
+			switch {
+			case err == nil:
+				ret = "ok"
+			case err.Error() == pdnode_coord.ErrNodeUnavailable.ToErrorType().Error():
+				ret = "nonode"
+			default:
+				ret = "regerr"
+			}
+			in.coord.VerifDrainCheckChan()
+		case "U":
+			in.coord.SetClusterUpgradeState(e.f[0] == "1") // leaving the upgrade state sleeps 1 s before triggering a check
+			in.coord.VerifDrainCheckChan()
 		case "LC":
 			in.lcoord.VerifDoCheckNamespacesForLearner(in.monitor)
 		case "LS":
